@@ -105,9 +105,9 @@ func genService(c *Chooser, schema string) ServicePlan {
 }
 
 type methodInfo struct {
-	Name string
+	Name   string
 	CS, SS bool
-	NSE  bool
+	NSE    bool
 }
 
 var simMethods = []methodInfo{
@@ -380,6 +380,7 @@ func genRPC(c *Chooser, o ScenOpts) *RPCPlan {
 				rp.WriteSizes = []int{1}
 			}
 		}
+		bp.CloseBody = Pick(c, "", "", "after-read", "at-return", "twice")
 		rp.EmptyWrites = c.Prob(0.2)
 		rp.FlushEvery = Pick(c, 0, 1, 2, 3)
 		cp.RW = Pick(c, "", "", "flusherr", "unwrap")
